@@ -32,6 +32,7 @@ from ..mutate import mutate, remove_stmts, replace_expr, replace_stmt, parse_stm
 from ..model import AnalysisError
 from ..rx import Rx, eval_abnf, eval_pattern_expr
 from ..x_sint import check_sint, group_rx, _match_call, _unique_binding, resolve_pattern
+from ..x_resolve import expand, resolve, unique_def, short_circuit_facts, named_bool_facts, in_annotation
 
 TECHNIQUE = "regex-automata language equivalence against RFC references (incl. call method) + exception-escape lint against a frozen raise table with guard dominance + argument/guard checks on is_valid_ip"
 EXPLANATION = (
@@ -123,6 +124,9 @@ def _start_line(ck, fname, abnf_name, tuple_name, group_refs):
     ck.floor("C43.start-line", len(ctors), 1, "%s(..) constructions in %s" % (tuple_name, fname))
     ref_line = Rx.from_pattern(REFS[abnf_name])
     for nd, c in ctors:
+        c_orig = c
+        mobjs = [nm for nm in q.local_names(fi.node) if (lambda b: b is not None and _match_call(ck.repo, fi, b) is not None)(_unique_binding(fi, nm))]
+        c = expand(fi, c, keep=mobjs)   # fields may travel through locals / a tuple assignment / m.group(1, 2, 3)
         groups = [x for x in ast.walk(c) if isinstance(x, ast.Call) and isinstance(x.func, ast.Attribute) and x.func.attr == "group" and isinstance(x.func.value, ast.Name)]
         mnames = {g.func.value.id for g in groups}
         if len(mnames) != 1:
@@ -138,7 +142,7 @@ def _start_line(ck, fname, abnf_name, tuple_name, group_refs):
         ck.ob("C43.start-line", fi, bind, w is None, "the language accepted by %s(%s) equals the RFC %s grammar%s" % (meth, q.unparse(bind.func.value), abnf_name.replace("_", "-"), "" if w is None else " — differs on %r (%s)" % w))
         ck.ob("C43.start-line", fi, bind, q.dotted(subj) == param, "the whole input line is matched (subject is the parameter %s, not a stripped/split copy)" % param)
         ok = (m, True) in facts[nd.id] or holds(facts[nd.id], "%s is None" % m, False)
-        ck.ob("C43.start-line", fi, c, ok, "the result is built only when the match succeeded")
+        ck.ob("C43.start-line", fi, c_orig, ok, "the result is built only when the match succeeded")
         # groups -> fields
         for pos, a in enumerate(c.args):
             gs = [x for x in ast.walk(a) if x in groups]
@@ -150,7 +154,7 @@ def _start_line(ck, fname, abnf_name, tuple_name, group_refs):
             gl, always = group_rx(pat, k)
             gref = Rx.from_pattern(REFS[group_refs[pos]])
             w2 = gl.difference_witness(gref)
-            ck.ob("C43.start-line", fi, a, w2 is None, "field %d of %s is the %s component (language of capture group %d)%s" % (pos, tuple_name, group_refs[pos], k, "" if w2 is None else " — differs on %r (%s)" % w2))
+            ck.ob("C43.start-line", fi, c_orig.args[pos] if pos < len(c_orig.args) else c_orig, w2 is None, "field %d of %s is the %s component (language of capture group %d)%s" % (pos, tuple_name, group_refs[pos], k, "" if w2 is None else " — differs on %r (%s)" % w2))
     # rejection: every raise is HTTPInputError; a failed match raises
     raises = [r for r in q.walk_body(fi.node) if isinstance(r, ast.Raise)]
     ck.floor("C43.start-line", len(raises), 1, "raise statements in %s" % fname)
@@ -245,7 +249,11 @@ def lint_total(ck, fi, extra_safe=()):
             n += 1
             ck.ob("C43.total", fi, x, False, "%s must never raise: explicit %s" % (fi.qualname, type(x).__name__.lower()))
     for nd, x in fi.cfg.find(lambda x: isinstance(x, (ast.Call, ast.Subscript, ast.Assign))):
-        F = facts[nd.id]
+        if in_annotation(pm, x):
+            continue
+        F = set(facts[nd.id])
+        F |= set(short_circuit_facts(pm, x))       # guards given by an enclosing and/or/conditional expression in value position
+        F |= set(named_bool_facts(fi, F))          # `flag = len(v) >= 2 and ...; if flag:` carries the atoms of its definition
         if isinstance(x, ast.Assign):
             t = x.targets[0]
             if isinstance(t, (ast.Tuple, ast.List)) and isinstance(x.value, ast.Call) and q.call_attr(x.value) in ("split", "rsplit"):
@@ -353,7 +361,8 @@ def rule_total(ck):
         raise AnalysisError("_unquote_sub is not <compiled>.sub")
     pat = eval_pattern_expr(sub.value, {})
     for nd, c in ur.cfg.find(lambda x: q.is_call(x, "int")):
-        op = c.args[0]
+        op0 = c.args[0]
+        op = resolve(ur, op0)
         k = op.slice.value if isinstance(op, ast.Subscript) and isinstance(op.slice, ast.Constant) else None
         base = c.args[1].value if len(c.args) > 1 and isinstance(c.args[1], ast.Constant) else 10
         if not isinstance(k, int):
@@ -363,7 +372,7 @@ def rule_total(ck):
         ok = base == 8 and gl.subset_of(Rx.from_pattern("[0-3][0-7][0-7]"))
         ck.ob("C43.total", ur, c, ok, "int(m[%d], 8): capture group %d of the escape pattern is three octal digits <= 377 (int() and chr() cannot fail)" % (k, k))
         f = must_facts(ur.cfg)[nd.id]
-        ck.ob("C43.total", ur, c, ("m[%d]" % k, True) in f or any(pol and t == q.unparse(op) for t, pol in f), "the octal branch is taken only when that group participated")
+        ck.ob("C43.total", ur, c, any(pol and t in (q.unparse(op), q.unparse(op0)) for t, pol in f), "the octal branch is taken only when that group participated")
     sh = ck.func(HU, "split_host_and_port")
     n += lint_total(ck, sh)
     k = check_sint(ck, "C43.total", sh, mode="total", ascii_only=False, lookup_callers=False)
@@ -484,19 +493,30 @@ def rule_misc(ck):
     # _encode_header: a valueless parameter is exactly v is None (0 / '' are values)
     from ..x_optint import check_truthiness
     eh = ck.func(HU, "_encode_header")
-    lps = [l for l in q.walk_body(eh.node) if isinstance(l, ast.For) and isinstance(l.target, ast.Tuple) and len(l.target.elts) == 2]
-    ck.floor("C43.encode-header", len(lps), 1, "parameter loops in _encode_header")
-    for l in lps:
-        vname = l.target.elts[1].id
-        check_truthiness(ck, "C43.encode-header", eh, extra=[vname])
-        nones = [c for c in ast.walk(l) if isinstance(c, ast.Compare) and q.dotted(c.left) == vname and isinstance(c.ops[0], (ast.Is, ast.IsNot)) and q.is_const(c.comparators[0], None)]
-        ck.ob("C43.encode-header", eh, l, len(nones) >= 1, "valueless parameters are recognised by 'is None'")
-        fs = [x for x in ast.walk(l) if isinstance(x, ast.JoinedStr)]
-        for f in fs:
-            holes = [q.dotted(v.value) for v in f.values if isinstance(v, ast.FormattedValue)]
-            consts = [v.value for v in f.values if isinstance(v, ast.Constant)]
-            ck.ob("C43.encode-header", eh, f, holes == [l.target.elts[0].id, vname] and consts == ["="], "a valued parameter is rendered as '<name>=<value>'")
+    gens = [(l.target, l) for l in q.walk_body(eh.node) if isinstance(l, ast.For)] + [(g.target, g) for g in ast.walk(eh.node) if isinstance(g, ast.comprehension)]
+    gens = [(t, l) for t, l in gens if isinstance(t, ast.Tuple) and len(t.elts) == 2 and all(isinstance(e, ast.Name) for e in t.elts)]
+    if len(gens) != 1:
+        raise AnalysisError("_encode_header: the loop/comprehension over the (name, value) parameters was not found")
+    kname, vname = [e.id for e in gens[0][0].elts]
+    check_truthiness(ck, "C43.encode-header", eh, extra=[vname])
+    nones = [c for c in ast.walk(eh.node) if isinstance(c, ast.Compare) and q.dotted(c.left) == vname and isinstance(c.ops[0], (ast.Is, ast.IsNot)) and q.is_const(c.comparators[0], None)]
+    tests_on_v = [t for t in ast.walk(eh.node) if isinstance(t, (ast.If, ast.IfExp)) and vname in q.names_in(t.test)]
+    if not tests_on_v:
+        raise AnalysisError("_encode_header: no test distinguishing valueless parameters found")
+    ck.ob("C43.encode-header", eh, tests_on_v[0].test, len(nones) >= 1, "valueless parameters are recognised by 'is None'")
+    tmpl = []
+    for x in ast.walk(eh.node):
+        if isinstance(x, ast.JoinedStr) or (isinstance(x, ast.BinOp) and isinstance(x.op, ast.Mod) and isinstance(x.left, ast.Constant) and isinstance(x.left.value, str)) or (isinstance(x, ast.Call) and q.call_attr(x) == "format" and isinstance(x.func.value, ast.Constant)):
+            t, holes = _template(x)
+            if t is not None and {kname, vname} <= {q.dotted(h) for h in holes}:
+                tmpl.append((x, t, holes))
+    if not tmpl:
+        raise AnalysisError("_encode_header: rendering of a valued parameter not recognised")
+    for x, t, holes in tmpl:
+        ck.ob("C43.encode-header", eh, x, t == "{}={}" and [q.dotted(h) for h in holes] == [kname, vname], "a valued parameter is rendered as '<name>=<value>'")
     joins = [c for c in q.calls(eh.node) if q.call_attr(c) == "join" and isinstance(c.func.value, ast.Constant)]
+    if not joins:
+        raise AnalysisError("_encode_header: joining of the parameters not recognised")
     for c in joins:
         ck.ob("C43.encode-header", eh, c, c.func.value.value == "; ", "parameters are separated by '; ' (what _parse_header splits on ';' and strips)")
 
@@ -517,6 +537,25 @@ def rule_misc(ck):
         if isinstance(a0, ast.Call) and q.call_attr(a0) in ("timetuple", "utctimetuple"):
             ck.ob("C43.timestamp", ft, a0, q.call_attr(a0) == "utctimetuple", "aware datetimes are converted to UTC before formatting (utctimetuple)")
     return 1
+
+
+def _template(e):
+    """Format skeleton of an f-string / %-format / str.format expression: (text with {} holes, hole expressions)."""
+    if isinstance(e, ast.JoinedStr):
+        out, holes = "", []
+        for v in e.values:
+            if isinstance(v, ast.Constant):
+                out += v.value
+            else:
+                out += "{}"
+                holes.append(v.value)
+        return out, holes
+    if isinstance(e, ast.BinOp) and isinstance(e.op, ast.Mod) and isinstance(e.left, ast.Constant) and isinstance(e.left.value, str):
+        t = _re.sub(r"%[sdir]", "{}", e.left.value)
+        return t, (list(e.right.elts) if isinstance(e.right, ast.Tuple) else [e.right])
+    if isinstance(e, ast.Call) and isinstance(e.func, ast.Attribute) and e.func.attr == "format" and isinstance(e.func.value, ast.Constant):
+        return _re.sub(r"\{\d*\}", "{}", e.func.value.value), list(e.args)
+    return None, []
 
 
 def args_param(fi):
